@@ -7,11 +7,16 @@ namespace YouVerif.C11
 /-- header, body and hash->number entry present -/
 def Stored (db : DB) (id : Nat) : Prop := db.body id = true ∧ db.hdr id = true ∧ db.hnum id = true
 
+/-- header and body present (what GetBlock needs) -/
+def HasBlk (db : DB) (id : Nat) : Prop := db.body id = true ∧ db.hdr id = true
+
+theorem Stored.hasBlk {db : DB} {id : Nat} (h : Stored db id) : HasBlk db id := ⟨h.1, h.2.1⟩
+
 /-- the number->hash index from genesis to `head` is a parent-linked chain of stored blocks ending in `head` -/
 structure IndexOK (W : World) (db : DB) (head : Nat) : Prop where
   headStored : Stored db head
   canonHead : db.canon (W.blk head).num = some head
-  chain : ∀ n, n ≤ (W.blk head).num → ∃ h, db.canon n = some h ∧ Stored db h ∧ (W.blk h).num = n ∧
+  chain : ∀ n, n ≤ (W.blk head).num → ∃ h, db.canon n = some h ∧ HasBlk db h ∧ (W.blk h).num = n ∧
             (0 < n → db.canon (n - 1) = some (W.blk h).parent)
   genesis : db.canon 0 = some genesisId
 
@@ -30,6 +35,9 @@ structure Consistent (W : World) (db : DB) (head : Nat) : Prop where
     is the head of a consistent chain (so a restart needs no repair) -/
 def DBInv (W : World) (db : DB) : Prop := ∃ head, db.headBlk = some head ∧ Consistent W db head
 
+/-- the invariant of a running node: its in-memory head heads a consistent chain and is the persisted head block -/
+def NodeInv (W : World) (nd : Node) : Prop := Consistent W nd.db nd.cur ∧ nd.db.headBlk = some nd.cur
+
 /-- writes that only add block data, state, or the head-header marker: no canonical hash, head block or lookup -/
 def DataWrite : Wr → Prop
   | .batch _ => False
@@ -38,5 +46,25 @@ def DataWrite : Wr → Prop
 /-- validity of a block under the engine (what the generator's mutants violate) -/
 def Valid (W : World) (id : Nat) : Prop :=
   (W.blk id).txRootOK = true ∧ (W.blk id).execOK = true ∧ (W.blk id).num = (W.blk (W.blk id).parent).num + 1
+
+/-- reachable nodes: started on the committed genesis, then any imports, and restarts after a crash at ANY prefix of the
+    primitive write list of any import -/
+inductive Reach (W : World) : Node → Prop where
+  | genesis : Reach W { db := DB.genesis W, cur := genesisId, fut := [] }
+  | insert (nd : Node) (chain : List Nat) : Reach W nd → Reach W (insertChain W nd chain).nd
+  | restart (nd : Node) (k : Nat) (chain : List Nat) (r : Res) : Reach W nd →
+      recover W (nd.db.applyAll ((insertChain W nd chain).ws.take k)) = some r → Reach W r.nd
+
+/-- transaction root and execution verdicts -/
+def VB (W : World) (h : Nat) : Prop := (W.blk h).txRootOK = true ∧ (W.blk h).execOK = true
+
+/-- no two block identities claim the same state root.  This is the side condition of `invalid_never_canonical`: it
+    excludes exactly the situation of the open finding F-C11b (an empty block, or a block claiming another block's root,
+    whose claimed state is "available" although the block was never executed). -/
+def RootsInjective (W : World) : Prop := ∀ h h', (W.blk h).root = (W.blk h').root → h = h'
+
+/-- available state roots belong to validated blocks whose parent state is available too -/
+def TrustedStates (W : World) (db : DB) : Prop :=
+  ∀ h, h ≠ genesisId → db.st (W.blk h).root = true → VB W h ∧ db.st (W.blk (W.blk h).parent).root = true
 
 end YouVerif.C11
